@@ -323,8 +323,8 @@ def compare(case, m, i, fields=None):
         if "trace" in m and want("trace"):
             if m["trace"] != i.get("trace"):
                 return "trace differs"
-            if m["trace"] is not None and want("prints") and m.get("prints") != i.get("prints"):
-                return "prints at failure differ"
+        if m.get("trace") is not None and isinstance(i.get("trace"), list) and want("prints") and m.get("prints") != i.get("prints"):
+            return "prints at failure differ"
         return None
     if m["status"] == "CRASH":
         return None if (not want("err") or m["err"] == i["err"]) else "crash kind model=%s impl=%s" % (m["err"], i["err"])
